@@ -124,25 +124,89 @@ def mk(ninputs, nsteps, parallel, _replay=None):
     permv = z3.Int("perm")
     perms = list(itertools.permutations(range(ninputs)))
 
-    def run(outcomes, payloads, pick_perm):
+    def run(outcomes, payloads, pick_perm, same_window=lambda j: False):
         proc, single, store = build(outcomes, payloads, nsteps)
 
-        def fake_as_completed(f, s, **kw):
-            s = list(s)
-            res = [copy.deepcopy(f(copy.deepcopy(m))) for m in s]  # process boundary: arguments and results are copies
-            order = pick_perm(len(s))
-            for j in order:
-                yield res[j]
+        # the executor layer is the environment: util.parallel.as_completed / _as_completed_mproc are the REAL code; only
+        # loky's executor and the concurrent.futures waiting primitives are stubs obeying their documented contracts.
+        # One timeline per run: `order` = the order in which the futures finish, same_window(j) = "the future finishing j-th
+        # finishes in the same wake-up of the waiting master as the one before it" (only queried by wait()).
+        import types
 
-        saved = CO.PAR.as_completed
-        CO.PAR.as_completed = fake_as_completed
+        PAR = CO.PAR
+        state = {"order": None}
+
+        class Fut:
+            def __init__(self, idx, fn, args):
+                self.idx = idx
+                try:  # process boundary: arguments and results are copies
+                    self.val, self.err = copy.deepcopy(fn(*copy.deepcopy(args))), None
+                except Exception as e:  # noqa
+                    self.val, self.err = None, e
+
+            def result(self, timeout=None):
+                if self.err is not None:
+                    raise self.err
+                return self.val
+
+        class Exec:
+            def __init__(self):
+                self.futs = []
+
+            def submit(self, fn, *args):
+                fut = Fut(len(self.futs), fn, args)
+                self.futs.append(fut)
+                state["order"] = None
+                return fut
+
+            def shutdown(self, *a, **kw):
+                pass
+
+            def __enter__(self):
+                return self
+
+            def __exit__(self, *a):
+                return False
+
+        execs = []
+
+        def get_executor(*a, **kw):
+            execs.append(Exec())
+            return execs[-1]
+
+        def rank():
+            if state["order"] is None:
+                state["order"] = list(pick_perm(len(execs[-1].futs)))
+            return {idx: pos for pos, idx in enumerate(state["order"])}
+
+        def fake_as_completed(fs, timeout=None):
+            r = rank()
+            yield from sorted(fs, key=lambda fu: r[fu.idx])
+
+        def fake_wait(fs, timeout=None, return_when="ALL_COMPLETED"):
+            r = rank()
+            fs = sorted(fs, key=lambda fu: r[fu.idx])
+            if return_when == "ALL_COMPLETED" or not fs:
+                return set(fs), set()
+            done = [fs[0]]
+            for fu in fs[1:]:
+                if r[fu.idx] == r[done[-1].idx] + 1 and same_window(r[fu.idx]):
+                    done.append(fu)
+                else:
+                    break
+            return set(done), set(fs) - set(done)
+
+        saved = (PAR.loky, PAR.concurrentfutures)
+        PAR.loky = types.SimpleNamespace(get_reusable_executor=get_executor)
+        PAR.concurrentfutures = types.SimpleNamespace(as_completed=fake_as_completed, wait=fake_wait, FIRST_COMPLETED="FIRST_COMPLETED",
+                                                      ALL_COMPLETED="ALL_COMPLETED", FIRST_EXCEPTION="FIRST_EXCEPTION")
         err = None
         try:
             proc.apply_to(list(ids), id_from_source=lambda x: str(getattr(x, "source", x)), parallel=parallel, logger=False, show_progress=False)
         except Exception as e:  # noqa
             err = e
         finally:
-            CO.PAR.as_completed = saved
+            PAR.loky, PAR.concurrentfutures = saved
         alone = {i: single(i) for i in ids}
         return store, alone, err
 
@@ -150,7 +214,7 @@ def mk(ninputs, nsteps, parallel, _replay=None):
         outc = {(i, k): int(_replay.get(f"o_{i}_{k}", 0)) for i in ids for k in range(nsteps)}
         pay = {i: float(_replay.get(f"x_{i}", 1.0)) for i in ids}
         p = perms[int(_replay.get("perm", 0)) % len(perms)]
-        store, alone, err = run(outc, pay, lambda n: p[:n] if n == len(p) else range(n))
+        store, alone, err = run(outc, pay, lambda n: p[:n] if n == len(p) else range(n), lambda j: bool(int(_replay.get(f"win_{j}", 0))))
         bad = []
         if err is not None:
             bad.append(f"apply_to raised {err!r}")
@@ -172,10 +236,16 @@ def mk(ninputs, nsteps, parallel, _replay=None):
                 return p
         return perms[-1]
 
+    winv = {j: z3.Int(f"win_{j}") for j in range(1, ninputs)}
+    A += [z3.And(v >= 0, v <= 1) for v in winv.values()]
+
+    def same_window(j):
+        return bool(psx.SBool(winv[j] == 1))
+
     def srun():
         outc = {k: psx.SReal(z3.ToReal(v)) for k, v in oc.items()}
         pay = {i: psx.SReal(v) for i, v in pv.items()}
-        return run(outc, pay, pick)
+        return run(outc, pay, pick, same_window)
 
     paths, stats = psx.explore(srun, A, max_paths=20000)
     if not W.reach("end"):
@@ -187,7 +257,7 @@ def mk(ninputs, nsteps, parallel, _replay=None):
         s.add(*p.assertions)
         s.check()
         m = s.model()
-        d = {str(v): m.eval(v, model_completion=True).as_long() for v in list(oc.values()) + [permv]}
+        d = {str(v): m.eval(v, model_completion=True).as_long() for v in list(oc.values()) + [permv] + list(winv.values())}
         d.update({str(v): psx.model_float(m, v) for v in pv.values()})
         return d
 
@@ -249,7 +319,7 @@ def mk(ninputs, nsteps, parallel, _replay=None):
         r, m, dt = psx.check_valid(p.assertions, z3.And(*claims) if claims else z3.BoolVal(True))
         nq += 1
         if r == "sat":
-            d = {str(v): m.eval(v, model_completion=True).as_long() for v in list(oc.values()) + [permv]}
+            d = {str(v): m.eval(v, model_completion=True).as_long() for v in list(oc.values()) + [permv] + list(winv.values())}
             d.update({str(v): psx.model_float(m, v) for v in pv.values()})
             return {"status": "cex", "cex": d, "queries": nq}
         if r != "unsat":
@@ -257,14 +327,15 @@ def mk(ninputs, nsteps, parallel, _replay=None):
     return {"status": "holds", "paths": stats["paths"], "queries": nq, "detail": f"{ninputs} inputs x {nsteps} steps, parallel={parallel}: {stats['paths']} outcome/order combinations", "solver_s": round(time.time() - t0, 2)}
 
 
-ENCODED = [("src/cogent3/app/composable.py", ["define_app", "_class_from_func", "__add__ composition", "_call", "_validate_data_type", "_source_wrapped", "_proxy_input", "source_proxy", "_as_completed", "_apply_to", "NotCompleted", "_get_origin"])]
+ENCODED = [("src/cogent3/util/parallel.py", ["as_completed", "_as_completed_mproc"]), ("src/cogent3/app/composable.py", ["define_app", "_class_from_func", "__add__ composition", "_call", "_validate_data_type", "_source_wrapped", "_proxy_input", "source_proxy", "_as_completed", "_apply_to", "NotCompleted", "_get_origin"])]
 BOUNDS = {
     "quick": ["loader + 1..2 generic steps + writer; 2 inputs x 2 steps and 3 inputs x 1 step; per-record per-step outcome in {ok, raises, returns None, returns wrong type} (symbolic); completion order: every permutation (symbolic); payloads symbolic reals",
               "serial and parallel dispatch"],
     "thorough": ["as quick plus 3 inputs x 2 steps"],
 }
 ASSUMPTIONS = [
-    "util.parallel.as_completed is replaced by a stub that applies the function to deep copies of the items (process boundary) and yields the results in a solver-chosen order; real process pools / MPI / timing are outside",
+    "the executor layer is the environment: util.parallel.as_completed and _as_completed_mproc are the real code; loky.get_reusable_executor returns a stub executor whose submit applies the function to deep copies (process boundary), "
+    "concurrent.futures.as_completed yields the futures in a solver-chosen completion order and concurrent.futures.wait(FIRST_COMPLETED) returns the solver-chosen set of futures that finished in the same wake-up (>= 1, in completion order); real process pools / MPI / timing are outside",
     "the output store is an in-memory object with the __contains__ / write / write_not_completed interface; on-disk stores are C13 territory",
     "deepcopy stands in for pickling across the process boundary (z3 terms cannot be pickled)",
 ]
